@@ -38,6 +38,12 @@ Theorem C09_ranges_disjoint : forall c s a b, wf_cfg c -> reach c s -> In a (inf
 Proof. exact ranges_disjoint. Qed.
 Print Assumptions C09_ranges_disjoint.
 
+(* no gaps: every offset from the start of the run's first range of p up to positions[p] is in an emitted batch *)
+Theorem C09_ranges_cover : forall c s p f o, wf_cfg c -> reach c s -> first_of p (infl s) = Some f -> b_lo f <= o < pos s p ->
+  exists b, In b (infl s) /\ b_part b = p /\ b_lo b <= o <= b_hi b.
+Proof. exact ranges_cover. Qed.
+Print Assumptions C09_ranges_cover.
+
 Theorem C09_range_le_watermark : forall c s b, wf_cfg c -> reach c s -> In b (infl s) ->
   c_low c <= b_lo b /\ b_hi b < high s (b_part b).
 Proof. exact range_le_watermark. Qed.
